@@ -151,6 +151,9 @@ type Machine struct {
 	tempSeq   int
 	openFiles map[*Value]string
 	csvFiles  map[string]*csvFile
+	pools     map[*Value][]Value
+	syncMaps  map[*Value]*Map
+	onces     map[*Value]bool
 	fsLog     []string
 	wgs       map[*Value]*int
 	cardApps  []cardApp
@@ -197,11 +200,15 @@ type Config struct {
 }
 
 func DefaultConfig() Config {
-	return Config{MaxPathSecs: 300, MaxSteps: 30_000_000, MaxDepth: 400, MaxLoop: 5000, SolverMs: 20000, PortfolioSec: 60}
+	return Config{MaxPathSecs: 300, MaxSteps: 30_000_000, MaxDepth: 400, MaxLoop: 200000, SolverMs: 20000, PortfolioSec: 60}
 }
 
 func NewMachine(p *Program, cfg Config) (*Machine, error) {
-	sol, err := NewSolver("z3", cfg.SolverMs)
+	kind := os.Getenv("VF_SOLVER") // z3 (default), z3-new, cvc5: cross-checks of the encoding
+	if kind == "" {
+		kind = "z3"
+	}
+	sol, err := NewSolver(kind, cfg.SolverMs)
 	if err != nil {
 		return nil, err
 	}
@@ -806,6 +813,9 @@ func (m *Machine) resetPath(prefix []int32) {
 	m.pathStart = time.Now()
 	m.openFiles = nil
 	m.csvFiles = nil
+	m.pools = nil
+	m.syncMaps = nil
+	m.onces = nil
 	m.fsLog = nil
 	m.wgs = nil
 	m.cardApps = nil
